@@ -163,6 +163,12 @@ func replicatedFieldName(f, owner string) bool {
 }
 
 func runC06(c *eng.Ctx) {
+	c.Rule("R07.5", "K2")
+	ruleCreateStampsEpochs(c)
+	c.Rule("R06.6", "K2")
+	ruleRestoreReadsTheWholeSnapshot(c)
+	c.Rule("R06.4", "K2")
+	rulePauseDecidesOnTheRuntimeFlag(c)
 	p := c.P
 	P := applyPath(c)
 	var pkeys []string
